@@ -35,6 +35,10 @@ def plan(tier, seed):
 
 def run_iban(shard, mon, S):
     table = data.countries()
+    by_spec: dict = {}
+    for c_, sp_ in sorted(table.items()):
+        by_spec.setdefault(sp_["bban_spec"], []).append(c_)
+    compat = {c_: [o for o in by_spec[table[c_]["bban_spec"]] if o != c_] for c_ in table}
     for cc in shard["countries"]:
         spec = table[cc]
         pos = data.positions(spec)
@@ -94,6 +98,24 @@ def run_iban(shard, mon, S):
             for oo in (o2, o3):
                 if not oo.ok or oo.value != ib or str(oo.value) != s:
                     mon.viol("reassembly_not_equal", w, s, oo.brief())
+            # the BBAN object of this IBAN re-assembled under another country with a compatible structure:
+            # the result must decompose by *that* country's published positions
+            for other in compat.get(cc, [])[:2]:
+                t2 = R.make_iban(other, bban)
+                o4 = observe(S.IBAN.from_bban, other, ib.bban)
+                o5 = observe(S.IBAN, t2)
+                mon.tally("cross_country_reassemblies")
+                if not o4.ok or not o5.ok or str(o4.value) != t2:
+                    mon.viol("cross_country_reassembly_wrong_text", {**w, "other": other}, t2, [o4.brief(), o5.brief()])
+                    continue
+                opos = data.positions(table[other])
+                for comp in COMPONENTS:
+                    want = bban[opos[comp][0] : opos[comp][1]] if comp in opos else ""
+                    got = observe(getattr, o4.value, comp)
+                    if not got.ok or got.value != want or got.value != getattr(o5.value, comp):
+                        mon.viol(f"cross_country_reassembly_component_wrong:{comp}", {**w, "other": other, "iban": t2}, want, got.brief())
+                if getattr(o4.value.bban, "country_code", None) != other:
+                    mon.viol("cross_country_reassembly_keeps_foreign_bban_country", {**w, "other": other}, other, getattr(o4.value.bban, "country_code", None))
             if len(ib) != len(s) or ib.length != len(s) or ib.compact != s:
                 mon.viol("length_or_compact_wrong", w, len(s), [ib.length, ib.compact])
         mon.sample({"iban": text, "published_positions": {k: list(v) for k, v in pos.items()}})
